@@ -40,3 +40,26 @@ Lemma demo_hs2_result :
               CMig 2 1 4096 12288; CMig 1 1 4096 4096; CMig 1 1 4096 8192; CRestart 0; CRestart 1] /\
   h_mmu_out s = [mkMRsp 51 [4096; 8192; 12288] false].
 Proof. vm_compute. repeat split; reflexivity. Qed.
+
+(** back-pressure: the MMU side leaves the first answer in the one-entry port
+    during the whole second migration; the second answer waits in its slot and
+    is sent once the port is free: both requests are answered, once each *)
+Definition demo_q3 : mreq := mkMReq 51 [1] [(1, [12288])] 2 7 4096 false [1] [1].
+Definition demo_hs3a : list hev :=
+  let T := HTick in
+  demo_hs ++ [HDeliverMMU demo_q3; T; T; T; HDeliverGPU RDrain; HDeliverGPU RDrain; T; T; T;
+   HDeliverGPU RShoot; T; T; T; HDeliverGPU RMig; T; T; T; T].
+Definition demo_hs3b : list hev :=
+  let T := HTick in
+  [HDeliverGPU RRestart; T; T; T; HDeliverGPU RRdmaRestart; HDeliverGPU RRdmaRestart; T; T; T;
+   HTakeMMU; T; HTakeMMU; HTakeMMU].
+Lemma demo_hs3_valid : hvalid (hs_init 2) (demo_hs3a ++ demo_hs3b).
+Proof. vm_compute. repeat split; try discriminate; try lia; auto. Qed.
+Lemma demo_hs3_waiting :
+  let s := hrun (hs_init 2) demo_hs3a in
+  h_tommu s = Some (mkMRsp 51 [12288] false) /\ h_mmu_out s = [mkMRsp 50 [4096; 8192] true].
+Proof. vm_compute. split; reflexivity. Qed.
+Lemma demo_hs3_answers :
+  filter (fun o => match o with HRsp _ => true | _ => false end) (hrun_obs (hs_init 2) (demo_hs3a ++ demo_hs3b)) =
+  [HRsp (Some (mkMRsp 50 [4096; 8192] true)); HRsp (Some (mkMRsp 51 [12288] false)); HRsp None].
+Proof. vm_compute. reflexivity. Qed.
